@@ -1,8 +1,150 @@
-/- Driver handler owned by property C04: `c04 <args…>` requests. -/
+/- Driver handler owned by property C04: `c04 <args…>` requests.
+
+   `c04 get <hex>` — `<hex>` is the hex encoding of the s-expression
+     (get (env (rt SCOPE #ident ID)…) (fns (fn #key (T…) T) | (helper #key) …) #name (rust (R…) R))
+   with script types
+     T ::= unit | never | intvar | floatvar | (var N) | (record N) | (n SCOPE #ident T…)
+     SCOPE ::= g | N
+   and Rust types (registry descriptions)
+     R ::= (leaf #rustname) | (oleaf N) | (option R) | (list R) | (result R R)
+         | (verdict R R) | (val N) | unknown
+   Identifiers are `#` followed by the hex of their UTF-8 bytes.
+   Answer: `<model> <spec>` where `<model>` is the outcome of the modelled
+   `get_function` over the *generated* gate
+     ok | dne | arity E G | arg I | ret | panic
+   and `<spec>` is `spec-ok` / `spec-no`: the right-hand side of
+   `RotoV.C04.get_function_iff`, computed with the documented `mapping`.
+-/
 import Driver.Util
+import RotoV.Model.Gate
+import RotoV.Generated.Gate
 
 namespace Driver.C04
+open RotoV.Gate
 
-def handle (_args : List String) : String := "bad-op"
+inductive Sexp
+  | atom (s : String)
+  | list (xs : List Sexp)
+  deriving Inhabited
+
+def tokens (s : String) : List String :=
+  let rec go : List Char → String → List String → List String
+    | [], cur, acc => (if cur.isEmpty then acc else cur :: acc).reverse
+    | c :: cs, cur, acc =>
+      let flush := if cur.isEmpty then acc else cur :: acc
+      if c == '(' then go cs "" ("(" :: flush)
+      else if c == ')' then go cs "" (")" :: flush)
+      else if c == ' ' || c == '\n' then go cs "" flush
+      else go cs (cur.push c) acc
+  go s.toList "" []
+
+mutual
+partial def parseOne : List String → Option (Sexp × List String)
+  | [] => none
+  | "(" :: rest => do
+    let (xs, rest) ← parseMany rest []
+    pure (.list xs, rest)
+  | ")" :: _ => none
+  | a :: rest => some (.atom a, rest)
+partial def parseMany : List String → List Sexp → Option (List Sexp × List String)
+  | [], _ => none
+  | ")" :: rest, acc => some (acc.reverse, rest)
+  | toks, acc => do
+    let (x, rest) ← parseOne toks
+    parseMany rest (x :: acc)
+end
+
+def identOf (s : String) : Option Ident := do
+  guard (s.startsWith "#")
+  let bytes ← unhex (s.drop 1).toString
+  let str ← String.fromUTF8? (ByteArray.mk bytes.toArray)
+  pure (ident str)
+
+def scopeOf (s : String) : Option ScopeRef :=
+  if s == "g" then some .GLOBAL else s.toNat?.map .other
+
+partial def rotoTy : Sexp → Option RotoTy
+  | .atom "unit" => some .unit
+  | .atom "never" => some .never
+  | .atom "intvar" => some .intVar
+  | .atom "floatvar" => some .floatVar
+  | .list [.atom "var", .atom n] => n.toNat?.map .var
+  | .list [.atom "record", .atom n] => n.toNat?.map .record
+  | .list (.atom "n" :: .atom sc :: .atom i :: args) => do
+    let sc ← scopeOf sc
+    let i ← identOf i
+    let args ← args.mapM rotoTy
+    pure (.name ⟨sc, i⟩ args)
+  | _ => none
+
+partial def rustTy : Sexp → Option RustTy
+  | .atom "unknown" => some .unknown
+  | .list [.atom "leaf", .atom n] => (identOf n).map (fun i => .leaf (.prim i))
+  | .list [.atom "oleaf", .atom n] => n.toNat?.map (fun k => .leaf (.opaque k))
+  | .list [.atom "val", .atom n] => n.toNat?.map (fun k => .val (.opaque k))
+  | .list [.atom "option", r] => (rustTy r).map .option
+  | .list [.atom "list", r] => (rustTy r).map .list
+  | .list [.atom "result", a, b] => do pure (.result (← rustTy a) (← rustTy b))
+  | .list [.atom "verdict", a, b] => do pure (.verdict (← rustTy a) (← rustTy b))
+  | _ => none
+
+def envOf (xs : List Sexp) : Option TypeInfo := do
+  let entries ← xs.mapM (fun
+    | .list [.atom "rt", .atom sc, .atom i, .atom id] => do
+      pure ((⟨← scopeOf sc, ← identOf i⟩ : ResolvedName), ← id.toNat?)
+    | _ => none)
+  pure ⟨fun n =>
+    match entries.find? (fun e => e.1 == n) with
+    | some e => .runtime n (.opaque e.2)
+    | none => .enum⟩
+
+def fnsOf (xs : List Sexp) : Option Functions :=
+  xs.mapM (fun
+    | .list [.atom "fn", .atom k, .list ps, ret] => do
+      pure (← identOf k, some ⟨← ps.mapM rotoTy, ← rotoTy ret⟩)
+    | .list [.atom "helper", .atom k] => do pure (← identOf k, none)
+    | _ => none)
+
+def showGet : GetRes → String
+  | .ok => "ok"
+  | .doesNotExist => "dne"
+  | .incorrectNumberOfArguments e g => s!"arity {e} {g}"
+  | .argMismatch i => s!"arg {i}"
+  | .retMismatch => "ret"
+  | .panic => "panic"
+
+/-- the right-hand side of `get_function_iff`, decided -/
+def specOk (ti : TypeInfo) (fns : Functions) (name : Ident) (f : RustFn) : Bool :=
+  match lookupFn fns (pkgPrefix ++ name) with
+  | some (some sig) =>
+    sig.parameter_types.length == f.args.length
+      && (sig.parameter_types.zip f.args).all (fun p => mapping ti p.1 == some p.2)
+      && mapping ti sig.return_type == some f.ret
+  | _ => false
+
+def handleGet (hex : String) : Option String := do
+  let bytes ← unhex hex
+  let str ← String.fromUTF8? (ByteArray.mk bytes.toArray)
+  let (sx, _) ← parseOne (tokens str)
+  match sx with
+  | .list [.atom "get", .list (.atom "env" :: env), .list (.atom "fns" :: fns), .atom name,
+           .list [.atom "rust", .list args, ret]] =>
+    let ti ← envOf env
+    let fns ← fnsOf fns
+    let name ← identOf name
+    let f : RustFn := ⟨← args.mapM rustTy, ← rustTy ret⟩
+    let model := getFunction (RotoV.Gen.Gate.checkRotoType ti) fns name f
+    let spec := specOk ti fns name f
+    pure s!"{showGet model} {if spec then "spec-ok" else "spec-no"}"
+  | _ => none
+
+def handle (args : List String) : String :=
+  match args with
+  | ["get", hex] => (handleGet hex).getD "bad-op"
+  | ["tables"] =>
+    -- the generated tables, for the evidence file
+    let names := RotoV.Gen.Gate.leafNames.map (fun p => Ident.toString p.2)
+    s!"arities={RotoV.Gen.Gate.funcArities} steps={RotoV.Gen.Gate.getFunctionSteps} leaves={names}"
+  | _ => "bad-op"
 
 end Driver.C04
